@@ -96,8 +96,17 @@ def run(rep, idx, tier):
     if m1[0] == 'call':
         aw = kwarg(m1, 'addr_width')
         want = ctor.parse("1 + max(ceil_log2(S), alignment)", {"S": want_size})
-        rep.check(aw == want, "C14.2", cs, "address width holds two aligned registers: 1 + max(ceil_log2(reg_size), alignment)",
-                  f"addr_width is {ir.show(aw) if aw else None}")
+        # named discrepancies: the width ignores the alignment or the register size altogether, or lacks the extra bit for
+        # the second register; any other arithmetic (ceil_log2(2 * max(size, 2**alignment)) ...) is undecided
+        wrong = None
+        if aw is not None and aw != want:
+            names = {x[1] for x in ir.walk(aw) if x[0] == 'name'}
+            if 'alignment' not in names:
+                wrong = "the address width does not depend on the alignment: two aligned registers do not fit when alignment exceeds ceil_log2(size)"
+            elif aw == ctor.parse("max(ceil_log2(S), alignment)", {"S": want_size}):
+                wrong = "no bit for the second register: enable and pending do not both fit"
+        rep.form(aw == want, "C14.2", cs, "address width holds two aligned registers: 1 + max(ceil_log2(reg_size), alignment)",
+                 f"addr_width is {ir.show(aw) if aw else None}", wrong=wrong)
         rep.check(kwarg(m1, 'data_width') == ('name', 'data_width') and kwarg(m1, 'alignment') == ('name', 'alignment'),
                   "C14.2", cs, "map uses the constructor's data_width and alignment",
                   f"MemoryMap(...) is {ir.show(m1)[:120]}", nontrivial=False)
